@@ -96,7 +96,14 @@ class LockProxy:
             if self.owner == me:
                 self.log.add("self-deadlock", me, self.name)
                 raise SelfDeadlock("the owning thread would block on its own lock (lock is not re-entrant)")
+            if not blocking:
+                return False
             self.log.add("blocked", me, self.name)
+            if timeout is not None and timeout >= 0:
+                # virtual time: a bounded wait may always expire while another thread is inside its critical section
+                self.log.add("timed-out", me, self.name)
+                time.sleep(0.001)
+                return False
             self.inner.acquire()
         self.owner = me
         self.depth += 1
@@ -351,6 +358,7 @@ def schedule_A(case, res):
     bad = []
     results = {}
     errors = []
+    others = [build_tree(7) for _ in range(nreaders)]  # one per reader: they must not wait for each other
     go = threading.Event()
     steps = writer_steps(t, style, 0)
     m = len(steps)
@@ -361,7 +369,13 @@ def schedule_A(case, res):
             me = threading.get_ident()
             log.add("call", me, op)
             try:
-                results[i] = run_op(op, t, tmpdir)
+                if case.get("reader_holds_other"):
+                    # the reader is inside the critical section of *another* tree: that must not exempt it from this tree's lock
+                    with others[i]:
+                        with others[i]:
+                            results[i] = run_op(op, t, tmpdir)
+                else:
+                    results[i] = run_op(op, t, tmpdir)
             except Exception:
                 errors.append("reader raised: " + short_tb(4))
             log.add("ret", me, op)
@@ -660,8 +674,8 @@ def schedule_D(case, res):
     res.count("exception_exits", 1)
     if seen == ["no exception"]:
         bad.append("the exception raised inside `with tree:` did not reach the caller")
-    if acq != case["nest"]:
-        res.inconc(f"schedule D: {acq} acquisitions observed, {case['nest']} expected")
+    if acq < 1:
+        res.inconc("schedule D: no acquisition of the tree lock observed")
     elif rel != acq:
         bad.append(f"after `with tree:` (nesting {case['nest']}) was left through {seen} the lock was acquired {acq}x but released {rel}x: "
                    "it stays held by a thread that has ended, every later snapshot operation would block for ever")
@@ -851,6 +865,9 @@ def all_points(tier):
     for op in OPS:
         for style in (STYLES if tier != "quick" else ["rebuild"]):
             pts.append({"kind": "A", "op": op, "style": style, "phase": 2, "nest": 2, "readers": 2, "owner_op": True})
+    for op in OPS:
+        for style in (STYLES if tier != "quick" else ["rebuild"]):
+            pts.append({"kind": "A", "op": op, "style": style, "phase": 2, "nest": 1, "readers": 2, "reader_holds_other": True})
     for op in OPS_WITH_CALLBACK:
         for style in STYLES:
             for k in ([1, 2, 5, 9, 12] if tier == "quick" else list(range(1, 14))):
